@@ -2,6 +2,7 @@
    Statements only; every proof is [exact <lemma>] (lemmas in proofs/OptStruct.v). *)
 From Coq Require Import ZArith NArith List Bool Reals Floats.
 From PV Require Import Num NumR model.Optimiser model.OptSpec proofs.OptStruct proofs.OptLoop proofs.FloatFacts proofs.RealFacts.
+From PV Require Import gen.GenFns proofs.SourceFacts.
 
 Theorem C06_fin_frozen :
   forall (NN : Num) (fexp : carrier NN -> carrier NN) (score : N -> list (carrier NN) -> option
@@ -38,4 +39,31 @@ Theorem C06_result_is_last_accepted :
     draws)) (score_cur NN st).
 Proof. exact OptStruct.C06_result_is_last_accepted. Qed.
 Print Assumptions C06_result_is_last_accepted.
+
+
+Theorem S_mc_step_is_source :
+  forall (NN : Num) (fexp : carrier NN -> carrier NN) (score : N -> list (carrier NN) -> option
+    (carrier NN)) (c : cfg NN) (st : ost NN) (d : draw NN), mc_step NN fexp score c st d = match
+    gen_mc_step NN fexp score c {| w_params := params NN st; w_handles := handles NN st; w_calls
+    := calls NN st |} (score_cur NN st) (kt NN st) (ratio NN st) (loop_rej NN st) d with | Some
+    (w, sc, rej) => {| params := w_params NN w; handles := w_handles NN w; score_cur := sc; kt
+    := kt NN st; ratio := ratio NN st; conv_count := conv_count NN st; loop_rej := rej;
+    score_start := score_start NN st; loops_done := loops_done NN st; j := N.succ (j NN st);
+    calls := w_calls NN w; fin := false; converged := false; bad_index := false |} | None => {|
+    params := params NN st; handles := handles NN st; score_cur := score_cur NN st; kt := kt NN
+    st; ratio := ratio NN st; conv_count := conv_count NN st; loop_rej := loop_rej NN st;
+    score_start := score_start NN st; loops_done := loops_done NN st; j := j NN st; calls :=
+    calls NN st; fin := true; converged := false; bad_index := true |} end.
+Proof. exact mc_step_is_source. Qed.
+Print Assumptions S_mc_step_is_source.
+
+Theorem S_final_assert_is_source :
+  forall (NN : Num) (fexp : carrier NN -> carrier NN) (score : N -> list (carrier NN) -> option
+    (carrier NN)) (c : cfg NN) (ps : list (carrier NN)) (hs : list (handle NN)) (draws : list
+    (draw NN)) (s0 : carrier NN), score 0%N ps = Some s0 -> let st := run NN fexp score c (init
+    NN c ps hs s0) draws in bad_index NN st = false -> fin NN st = true -> converged NN st =
+    false -> optimise NN fexp score c ps hs draws = (if gen_final_ok NN (score (calls NN st)
+    (params NN st)) then Returned NN st else PanicFinalInvalid NN).
+Proof. exact final_assert_is_source. Qed.
+Print Assumptions S_final_assert_is_source.
 
